@@ -231,6 +231,9 @@ P_KINDS = {
     "struct_as": "#[typeshare(serialized_as = \"String\")]\npub struct Payment%s { pub v: u32 }",
     "enum_as": "#[typeshare(serialized_as = \"String\")]\npub enum Payment%s { FirstCase, SecondCase }",
     "tuple_struct": "pub struct Payment%s(String);",
+    # round n: a struct without fields takes a different branch in some back ends (Kotlin `object`, Scala `class`)
+    "empty_struct": "pub struct Payment%s {}",
+    "unit_struct": "pub struct Payment%s;",
 }
 P_ATTRS = {"none": "", "rename": "#[serde(rename = \"NewName\")]\n", "rename_all": "#[serde(rename_all = \"camelCase\")]\n",
            "rename_all_snake": "#[serde(rename_all = \"snake_case\")]\n", "both": "#[serde(rename = \"NewName\", rename_all = \"kebab-case\")]\n"}
